@@ -556,6 +556,76 @@ theorem C08_inflight_cache_witness : ¬ ResumeStatement RCfg.mid Cfg.repaired :=
   rw [C08_inflight_cache_detail.2.2.2.1] at this
   cases this
 
+/-! ## restarting a checkpoint with the `running` flags kept (`_serialize_result`: results come from disk) -/
+
+theorem runActs_append (cfg : Cfg) (d : Dag) (l1 l2 : List Act) : ∀ (s s1 : S),
+    runActs cfg d s l1 = some s1 → runActs cfg d s (l1 ++ l2) = runActs cfg d s1 l2 := by
+  induction l1 with
+  | nil => intro s s1 h; simp [runActs] at h; subst h; rfl
+  | cons a as ih =>
+    intro s s1 h
+    simp only [runActs, List.cons_append] at h ⊢
+    cases hs : step cfg d s a with
+    | none => simp [hs] at h
+    | some t => simp only [hs] at h ⊢; exact ih t s1 h
+
+/-- REPAIRED: for a cut in the drain phase (every starting node started) the restart is the first run going
+on — the state it reaches is a state of that run, so everything C01/C06 prove about it holds -/
+theorem C08_continue_reachable {cfg d s s'} {order : List Nat} (hc : Cut cfg d s) (hph : s.phase = .run [])
+    (h : continueFrom CCfg.repaired cfg d order s = some s') : Cut cfg d s' := by
+  obtain ⟨acts, ha⟩ := hc
+  have hs : ({ s with queue := s.queue, phase := .run [] } : S) = s := by
+    cases s; simp_all
+  simp only [continueFrom, CCfg.repaired, if_true, hs] at h
+  exact ⟨acts ++ (order.filter (fun i => s.running.contains i)).map Act.complete,
+    by rw [runActs_append cfg d _ _ _ s ha]; exact h⟩
+
+/-- … hence it ends where an uninterrupted run ends, every function called exactly once over both processes -/
+theorem C08_continue_same_end {cfg d s s' s''} {order : List Nat} (wf : WF d) (rank : Nat → Nat)
+    (hrank : ∀ i j, j ∈ d.deps i → rank j < rank i) (hnf : C01.NoFaults d) (hc : Cut cfg d s)
+    (hph : s.phase = .run []) (h : continueFrom CCfg.repaired cfg d order s = some s') (acts : List Act)
+    (hr : runActs cfg d s' acts = some s'') (hex : s''.phase = .exited) (i : Nat) (hm : d.member i) :
+    s''.calls i = 1 ∧ s''.st i = .done ∧ s''.out i = .app i (headArgs d s''.out i) := by
+  obtain ⟨a0, h0⟩ := C08_continue_reachable hc hph h
+  have hreach : C01.Reach cfg d s'' := ⟨a0 ++ acts, by rw [runActs_append cfg d _ _ _ s' h0]; exact hr⟩
+  obtain ⟨h1, h2⟩ := C01.C01_once wf rank hrank hnf hreach hex i hm
+  exact ⟨h1, h2, C01.C01_value wf rank hrank hnf hreach hex i hm⟩
+
+/-- roots `0` (executor) and `1`, `2` takes data from both; cut: `0` out, `1` finished, its signal queued -/
+def sQueued : S := sFlight
+
+/-- NOW: the queued signal of `1` is dropped by the restart; `0`'s result is processed, `2` waits for `1`
+for ever — the run RETURNS, `2` never executed, its output NOT_DATA -/
+theorem C08_continue_queue_lost_witness :
+    ((continueFrom CCfg.now Cfg.repaired wFlight.toDag [0, 1, 2] sQueued).bind
+      (fun s => runActs Cfg.repaired wFlight.toDag s [.deliver, .exit])).map
+      (fun s => (s.phase, s.st 2, s.out 2, s.errs)) = some (.exited, .idle, .nd, []) ∧
+    ((continueFrom CCfg.repaired Cfg.repaired wFlight.toDag [0, 1, 2] sQueued).bind
+      (fun s => runActs Cfg.repaired wFlight.toDag s [.deliver, .deliver, .exit])).map
+      (fun s => (s.phase, s.st 2, s.out 2)) = some (.exited, .done, .app 2 [.app 1 [], .app 0 []]) := by
+  decide +kernel
+
+/-- two roots on executors, both out at the cut -/
+def wTwo : FinDag :=
+  { n := 3, slots := [[], [], [[1], [0]]], down := [[2], [2]], starters := [0, 1],
+    onExec := [true, true, false], fails := [], rank := [0, 0, 1] }
+theorem someTwo : (runActs Cfg.repaired wTwo.toDag (init wTwo.toDag) [.start, .start]).isSome = true := by decide +kernel
+def sTwo : S := (runActs Cfg.repaired wTwo.toDag (init wTwo.toDag) [.start, .start]).get someTwo
+
+/-- NOW: with two children out the restart processes the result of the first only (the loop runs over the
+list it shrinks); the second stays marked running, no action of the loop will ever finish it: after the one
+delivery that is left the composite can neither exit nor do anything else — it idles for ever -/
+theorem C08_continue_skips_job_witness :
+    ((continueFrom CCfg.now Cfg.repaired wTwo.toDag [0, 1, 2] sTwo).bind
+      (fun s => runActs Cfg.repaired wTwo.toDag s [.deliver])).map
+      (fun s => (s.running, s.queue, (step Cfg.repaired wTwo.toDag s .exit).isSome,
+                 (step Cfg.repaired wTwo.toDag s .deliver).isSome, (step Cfg.repaired wTwo.toDag s .start).isSome))
+      = some ([1], [], false, false, false) ∧
+    ((continueFrom CCfg.repaired Cfg.repaired wTwo.toDag [0, 1, 2] sTwo).bind
+      (fun s => runActs Cfg.repaired wTwo.toDag s [.deliver, .deliver, .exit])).map
+      (fun s => (s.phase, s.running, s.st 2)) = some (.exited, [], .done) := by
+  decide +kernel
+
 /-- `0 → 2 ← 1`, `1` on an executor; `0` raises in the first run -/
 def wStale : FinDag :=
   { n := 3, slots := [[], [], [[0], [1]]], down := [[2], [2]], starters := [0, 1],
@@ -918,6 +988,10 @@ end PwVerif.C08
 #print axioms PwVerif.C08.C08_nested_same_end
 #print axioms PwVerif.C08.C08_flow_resume_transparent
 #print axioms PwVerif.C08.C08_flow_hit_no_call
+#print axioms PwVerif.C08.C08_continue_reachable
+#print axioms PwVerif.C08.C08_continue_same_end
+#print axioms PwVerif.C08.C08_continue_queue_lost_witness
+#print axioms PwVerif.C08.C08_continue_skips_job_witness
 #print axioms PwVerif.C08.C08_file_holds_last_cut
 #print axioms PwVerif.C08.C08_refail_conservative
 #print axioms PwVerif.C08.C08_recovery_files_raising
